@@ -582,6 +582,41 @@ def c20_model(cells):
     return rows, ""
 
 
+def keyfree_cells():
+    """well-ordered programs in which the KEY dies before the string is used: the string is borrowed from the interner
+    only (Facts.out_borrows_argument / C20_strings_borrow_only_the_receiver), through the inherent methods of the four
+    containers and through every trait form (generic, &dyn, Box<dyn>, &T, &mut T, Box<I>)"""
+    out = []
+    exprs = {"resolve": "{X}.resolve(&k)", "try_resolve": "{X}.try_resolve(&k).unwrap()", "resolve_unchecked": "unsafe { {X}.resolve_unchecked(&k) }"}
+    forms = [("rodeo", "let x = mk_rodeo();", "x"), ("threaded", "let x = mk_threaded();", "x"), ("reader", "let x = mk_reader();", "x"),
+             ("resolver", "let x = mk_resolver();", "x"),
+             ("dyn_resolver", "let x = mk_resolver(); let v: &dyn Resolver = &x;", "v"),
+             ("dyn_reader", "let x = mk_reader(); let v: &dyn Reader = &x;", "v"),
+             ("box_dyn", "let v: Box<dyn Resolver> = Box::new(mk_rodeo());", "v"),
+             ("box_reader", "let v: Box<dyn Reader> = Box::new(mk_reader());", "v")]
+    n = 0
+    for fname, decl, X in forms:
+        for en, e in exprs.items():
+            n += 1
+            cid = f"keyfree_{n:02d}"
+            body = e.replace("{X}", X)
+            out.append((cid, f"pub fn {cid}() {{\n    {decl}\n    let r = {{ let k = k0(); {body} }};\n    use_str(\"{cid}\", r);\n}}", f"{fname}: `{en}` with a key that dies first"))
+    # accessor shapes: a by-value key, generic over the trait, and the blanket impls
+    for en in exprs:
+        body = {"resolve": "Resolver::resolve(t, &k)", "try_resolve": "Resolver::try_resolve(t, &k).unwrap()",
+                "resolve_unchecked": "unsafe { Resolver::resolve_unchecked(t, &k) }"}[en]
+        for wname, sig, setup, arg in (
+                ("generic", "fn acc<R: Resolver>(t: &R, k: Spur) -> &str", "let keep = mk_rodeo();", "&keep"),
+                ("ref_t", "fn acc<'t>(t: &'t &Rodeo, k: Spur) -> &'t str", "let keep = mk_rodeo(); let w = &keep;", "&w"),
+                ("mut_t", "fn acc<'t>(t: &'t &mut Rodeo, k: Spur) -> &'t str", "let mut keep = mk_rodeo(); let w = &mut keep;", "&w"),
+                ("box_i", "fn acc(t: &Box<Rodeo>, k: Spur) -> &str", "let keep = Box::new(mk_rodeo());", "&keep")):
+            n += 1
+            cid = f"keyfree_{n:02d}"
+            out.append((cid, f"pub fn {cid}() {{\n    {sig} {{ {body} }}\n    {setup}\n    let r = acc({arg}, k0());\n    use_str(\"{cid}\", r);\n}}",
+                        f"accessor over `{wname}`: `{en}` with a by-value key"))
+    return out
+
+
 def engine_c20(prop, spec, tier, seed, work):
     t0 = time.time()
     problems, samples = [], []
@@ -636,7 +671,11 @@ def engine_c20(prop, spec, tier, seed, work):
     good = Cells(BORROWS_PRELUDE)
     for c in cells:
         good.add(c["id"], c["good"])
-    main = "fn main() {\n" + "".join(f"    {c['id']}();\n" for c in cells) + "    println!(\"borrows_good ok\");\n}\n"
+    kfree = keyfree_cells()
+    for cid, src_, _ in kfree:
+        good.add(cid, src_)
+    main = ("fn main() {\n" + "".join(f"    {c['id']}();\n" for c in cells) + "".join(f"    {cid}();\n" for cid, _, _ in kfree)
+            + "    println!(\"borrows_good ok\");\n}\n")
     d2 = write_crate("borrows_good", {"src/main.rs": good.source(main)}, True)
     rc2, errs2, tail2 = cargo_build(d2)
     if rc2 != 0:
@@ -647,7 +686,8 @@ def engine_c20(prop, spec, tier, seed, work):
     else:
         rrc, out = run_bin("borrows_good")
         lines = out.splitlines()
-        want = [f"{c['id']} " + ("gamma" if "StoreLocal" in c["bad_events"] else "alpha") for c in cells] + ["borrows_good ok"]
+        want = ([f"{c['id']} " + ("gamma" if "StoreLocal" in c["bad_events"] else "alpha") for c in cells]
+                + [f"{cid} alpha" for cid, _, _ in kfree] + ["borrows_good ok"])
         if rrc != 0 or lines != want:
             diff = next(((a, b) for a, b in zip(lines + ["<eof>"] * len(want), want) if a != b), None)
             problems.append(("monitor", None, {"line": f"M borrows_good - C20 the well-ordered programs print something else (rc {rrc}): first difference (got, want) = {diff}",
@@ -662,7 +702,7 @@ def engine_c20(prop, spec, tier, seed, work):
     for cs in rejected.values():
         for code in cs:
             hist[code] = hist.get(code, 0) + 1
-    ev = {"evaluations": 2 * len(cells), "distinct_nontrivial": len(cells),
+    ev = {"evaluations": 2 * len(cells) + len(kfree), "distinct_nontrivial": len(cells), "key_dies_first_programs": len(kfree),
           "rule": "one ill-ordered probe function per (container or trait-object form) x (string-returning entry point) x (invalidating operation) that exists, plus the static entry "
                   "points fed a local String's &str; each must carry a borrow-check error (E0597 E0505 E0502 E0499 E0506 E0521 E0716 E0515 E0503) and its event abstraction must be rejected "
                   "by Loans.accepts over the regenerated Facts.v; the well-ordered twin of every probe is compiled into a binary, run, and must print the expected string; "
